@@ -1,5 +1,7 @@
 package main
 
+import "crypto"
+
 // The artifact list: one builder per (format, fixture).
 
 func noECDSA(v Variant) string { return skipECDSA(v) }
@@ -23,9 +25,9 @@ func builderList(thorough bool) []builder {
 		}},
 		{name: "xap", fn: buildXAP},
 		{name: "vsix", fn: buildVSIX},
-		{name: "appx", fn: buildAPPX},
-		{name: "macho", fn: buildMachO(thorough), skip: appleDigest},
-		{name: "dmg", fn: buildDMG, skip: appleDigest},
+		{name: "appx", fn: buildAPPX(thorough)},
+		{name: "macho", fn: buildMachO(thorough), skip: appleDigest, substitute: appleSubst},
+		{name: "dmg", fn: buildDMG, skip: appleDigest, substitute: appleSubst},
 		{name: "xar", fn: buildXAR},
 		{name: "deb", fn: buildDEB, skip: noECDSA},
 		{name: "rpm", fn: buildRPM, skip: noECDSA},
@@ -39,4 +41,8 @@ func appleDigest(v Variant) string {
 		return "Apple code signatures support SHA-1 / SHA-256 / SHA-384 only (covered with sha384 instead)"
 	}
 	return ""
+}
+
+func appleSubst(v Variant) (Variant, bool) {
+	return Variant{Key: v.Key, Hash: crypto.SHA384, HashName: "sha384"}, true
 }
